@@ -1,7 +1,7 @@
 (* PyGrammar.v — a formal canonical grammar for Python at the level of positioned tokens: a program
    is a block of entries at one indentation; an entry is a line, optionally followed by a deeper
-   block (compound statements), or a definition line `[async] def name (...)+ rest` followed by a deeper
-   block, its suite.  Lines are physical lines (no backslash continuation), strictly increasing; the
+   block (compound statements), or a definition header `[async] def name (...)+ rest` — possibly over several
+   physical lines, the further ones indented deeper than the `def` — followed by a deeper block, its suite.  Lines are physical lines (no backslash continuation), strictly increasing; the
    column of a line's first token is its indentation.  The relation generates the token list together
    with the descriptors PySpec.v prescribes (absolute token indices; parents before children). *)
 From Verif Require Import Base Regex Token TokEngine Lex Headers Blocks Spec HeaderSpec LexShapes PySpec Grammar GrammarAll.
@@ -17,16 +17,40 @@ Definition line_at (c ln : Z) (l : list token) : Prop :=
   l <> [] /\ Forall (fun t => t_line t = ln) l /\ t_col (hd (mkTok KOther [] 0 0) l) = c /\ no_continuation l /\
   kw_is (last l (mkTok KOther [] 0 0)) s_async = false.
 
-(* a definition line: name offset and offset of the end of the recognised header shape *)
-Inductive def_line : list token -> nat -> nat -> Prop :=
+(* Python parenthesis groups: only parentheses count (the header pattern uses Balanced("(", ")")); braces and
+   brackets inside a parameter list are ordinary tokens (`def f(p={}, q=[1]):`) *)
+Definition pplain (t : token) : bool := negb (is_lparen t) && negb (is_rparen t).
+Inductive pinner : list token -> Prop :=
+| pinner_nil : pinner []
+| pinner_plain t r : pplain t = true -> pinner r -> pinner (t :: r)
+| pinner_group o g c r : is_lparen o = true -> pinner g -> is_rparen c = true -> pinner r -> pinner (o :: g ++ c :: r).
+Inductive pgroup : list token -> Prop :=
+| pgroup_intro o g c : is_lparen o = true -> pinner g -> is_rparen c = true -> pgroup (o :: g ++ [c]).
+Inductive pgroups : list token -> Prop :=
+| pgroups_one g : pgroup g -> pgroups g
+| pgroups_more g r : pgroup g -> pgroups r -> pgroups (g ++ r).
+
+(* l is a definition header that begins on physical line ln in column c and ends on line hl (hl = ln for a
+   one-line header): line numbers never decrease along l, every token that begins a further physical line of the
+   header stands to the right of column c, no backslash continuation, and the header does not end with `async` *)
+Definition head_at (c ln hl : Z) (l : list token) : Prop :=
+  l <> [] /\ t_line (hd (mkTok KOther [] 0 0) l) = ln /\ t_col (hd (mkTok KOther [] 0 0) l) = c /\
+  t_line (last l (mkTok KOther [] 0 0)) = hl /\
+  (forall i a b, nth_error l i = Some a -> nth_error l (S i) = Some b ->
+                 t_line a <= t_line b /\ (t_line a < t_line b -> c < t_col b)) /\
+  no_continuation l /\ kw_is (last l (mkTok KOther [] 0 0)) s_async = false.
+
+(* a definition header `[async] def name (...)+ rest`: name offset and offset of the end of the recognised header
+   shape; `rest` — from the token after the last ")" (":" or "->") to the end of the header — stands on line hl *)
+Inductive def_line (hl : Z) : list token -> nat -> nat -> Prop :=
 | dl_def d nm gs rest :
-    kw_is d s_def = true -> is_name nm = true -> groups gs -> no_def gs ->
-    rest <> [] -> is_lparen (hd nm rest) = false -> no_def rest ->
-    def_line (d :: nm :: gs ++ rest) 1 (2 + length gs)
+    kw_is d s_def = true -> is_name nm = true -> pgroups gs -> no_def gs ->
+    rest <> [] -> is_lparen (hd nm rest) = false -> no_def rest -> Forall (fun t => t_line t = hl) rest ->
+    def_line hl (d :: nm :: gs ++ rest) 1 (2 + length gs)
 | dl_async a d nm gs rest :
-    kw_is a s_async = true -> kw_is d s_def = true -> is_name nm = true -> groups gs -> no_def gs ->
-    rest <> [] -> is_lparen (hd nm rest) = false -> no_def rest ->
-    def_line (a :: d :: nm :: gs ++ rest) 2 (3 + length gs).
+    kw_is a s_async = true -> kw_is d s_def = true -> is_name nm = true -> pgroups gs -> no_def gs ->
+    rest <> [] -> is_lparen (hd nm rest) = false -> no_def rest -> Forall (fun t => t_line t = hl) rest ->
+    def_line hl (a :: d :: nm :: gs ++ rest) 2 (3 + length gs).
 
 (* pentry c off lo ts ds hi: ts (at absolute offset off) is one entry at indentation column c whose lines are
    numbered in (lo, hi], hi being its last line; pblock: one or more entries *)
@@ -37,9 +61,9 @@ Inductive pentry (c : Z) : nat -> Z -> list token -> list pydesc -> Z -> Prop :=
     line_at c ln l -> lo < ln -> no_def l -> c < c' ->
     pblock c' (off + length l) ln sub ds hi ->
     pentry c off lo (l ++ sub) ds hi
-| pe_def off lo l ln nmo heo c' sub ds hi :
-    line_at c ln l -> lo < ln -> def_line l nmo heo -> c < c' ->
-    pblock c' (off + length l) ln sub ds hi ->
+| pe_def off lo l ln hl nmo heo c' sub ds hi :
+    head_at c ln hl l -> lo < ln -> def_line hl l nmo heo -> c < c' ->
+    pblock c' (off + length l) hl sub ds hi ->
     pentry c off lo (l ++ sub)
            (mkPd (off + nmo) off (off + heo) (off + length l) (off + length l + length sub) :: ds) hi
 with pblock (c : Z) : nat -> Z -> list token -> list pydesc -> Z -> Prop :=
